@@ -349,6 +349,7 @@ class AsyncWorld(World):
         def acceptor(conn, srv=srv):
             conn.server_task = self.loop.create_task(
                 srv.eio.handle_request(ws_environ(conn)))
+            conn.server_obj = srv
         self.net.register(name, acceptor)
 
     def add_peer(self, server='s'):
@@ -596,6 +597,7 @@ class ThreadWorld(World):
                 srv.eio.handle_request(ws_environ(conn),
                                        lambda status, headers: None)
             conn.server_task = k.spawn(serve, name='conn%d' % conn.cid)
+            conn.server_obj = srv
         self.net.register(name, acceptor)
 
     def add_peer(self, server='s'):
@@ -731,3 +733,114 @@ def make_world(mode, **kw):
         kw.pop('pct_span', None)
         return AsyncWorld(**kw)
     return ThreadWorld(**kw)
+
+
+# --------------------------------------------------------------------------
+# scripted server: a real engine.io server whose Socket.IO layer is the
+# workload (it can answer CONNECT / CONNECT_ERROR / DISCONNECT / EVENT / ACK in
+# any order, which a real socketio server cannot)
+# --------------------------------------------------------------------------
+class ScriptedServer:
+    def __init__(self, world, name='s', **cfg):
+        self.world = world
+        self.name = name
+        self.rx = []            # dict(seq, eio_sid, pkt)
+        self.conns = []         # eio sids in order of arrival
+        self.closed = set()
+        self.on_packet = None   # callable(eio_sid, Pkt) run inline
+        self.asm = {}
+        cfg.setdefault('monitor_clients', False)
+        cfg.setdefault('ping_interval', 1000)
+        cfg.setdefault('ping_timeout', 500)
+        cfg['logger'] = make_logger(world.rec, 'eio.' + name)
+        cfg['async_handlers'] = False
+        if world.mode == 'async':
+            self.eio = _SimEioAsyncServer(**cfg)
+            self.eio.on('connect', self._a_connect)
+            self.eio.on('message', self._a_message)
+            self.eio.on('disconnect', self._a_disconnect)
+        else:
+            cfg.setdefault('async_mode', 'threading')
+            self.eio = engineio.Server(**cfg)
+            self.eio._async = world.driver
+            self.eio.on('connect', self._connect)
+            self.eio.on('message', self._message)
+            self.eio.on('disconnect', self._disconnect)
+        world.servers[name] = self
+        world.register_acceptor(name, self)
+
+    # engine.io handlers -----------------------------------------------------
+    def _connect(self, eio_sid, environ):
+        self.conns.append(eio_sid)
+        self.asm[eio_sid] = sio.Assembler(msgpack=self.world.msgpack)
+        self.world.rec.add('ss_open', eio_sid=eio_sid)
+
+    def _message(self, eio_sid, data):
+        p = self.asm[eio_sid].feed(data)
+        if p is None:
+            return
+        ev = self.world.rec.add('ss_rx', eio_sid=eio_sid, pkt=p.key())
+        self.rx.append({'seq': ev['seq'], 'eio_sid': eio_sid, 'pkt': p})
+        if self.on_packet is not None:
+            return self.on_packet(eio_sid, p)
+
+    def _disconnect(self, eio_sid, reason=None):
+        self.closed.add(eio_sid)
+        self.world.rec.add('ss_closed', eio_sid=eio_sid, reason=reason)
+
+    async def _a_connect(self, eio_sid, environ):
+        self._connect(eio_sid, environ)
+
+    async def _a_message(self, eio_sid, data):
+        r = self._message(eio_sid, data)
+        if inspect.isawaitable(r):
+            await r
+
+    async def _a_disconnect(self, eio_sid, reason=None):
+        self._disconnect(eio_sid, reason)
+
+    # driver side --------------------------------------------------------------
+    @property
+    def current(self):
+        return self.conns[-1] if self.conns else None
+
+    def frames_for(self, type, nsp='/', id=None, data=None):
+        if self.world.msgpack:
+            return sio.encode_msgpack(type, nsp, id, data)
+        return sio.encode(type, nsp, id, data)
+
+    def send_frames(self, frames, eio_sid=None):
+        """Queue frames for the client; usable from the driver and from
+        on_packet callbacks (returns an awaitable in the asyncio world)."""
+        eio_sid = eio_sid or self.current
+        w = self.world
+        if w.mode == 'async':
+            async def go():
+                for f in frames:
+                    await self.eio.send(eio_sid, f)
+            if asyncio.events._get_running_loop() is not None:
+                return w.loop.create_task(go())
+            return w.call(go, _label=('ss_send',))
+        for f in frames:
+            self.eio.send(eio_sid, f)
+
+    def send_pkt(self, type, nsp='/', id=None, data=None, eio_sid=None):
+        self.world.rec.add('ss_tx', pkt=sio.Pkt(type, nsp, id, data).key())
+        return self.send_frames(self.frames_for(type, nsp, id, data), eio_sid)
+
+    def close_transport(self, eio_sid=None):
+        """engine.io level close by the server (sends CLOSE)."""
+        eio_sid = eio_sid or self.current
+        return self.world.call(self.eio.disconnect, eio_sid,
+                               _label=('ss_close',))
+
+    def since(self, seq):
+        return [r['pkt'] for r in self.rx if r['seq'] > seq]
+
+
+def _add_scripted(self, name='s', **cfg):
+    return ScriptedServer(self, name, **cfg)
+
+
+AsyncWorld.add_scripted_server = _add_scripted
+ThreadWorld.add_scripted_server = _add_scripted
